@@ -257,6 +257,8 @@ pub(crate) enum ExprErrorKind {
     DivisionByZero,
     #[error("random({0}) has no value to choose from")]
     EmptyRandomRange(i64),
+    #[error("The function {0} is not implemented")]
+    NotImplemented(&'static str),
 }
 
 /// Could not construct static iterator
